@@ -268,7 +268,7 @@ func runC20GCS(c C20GCSCase, ev *vt.Ev) *vt.Failure {
 		}
 		resp, returned := doWithWatchdog(e, p)
 		if !returned {
-			return vt.Failf("C20", "probe %d (%s %.150s) did not return within 60s (hang)", i, p.Method, p.Path)
+			return vt.Failf("C20", "probe %d (%s %.150s) did not return (hang)", i, p.Method, p.Path)
 		}
 		reached++
 		labels[fmt.Sprintf("status=%dxx", resp.Status/100)] = true
@@ -289,7 +289,7 @@ func runC20GCS(c C20GCSCase, ev *vt.Ev) *vt.Failure {
 
 func TestC20GCS(t *testing.T) {
 	vt.Prop[C20GCSCase]{ID: "C20", Test: "TestC20GCS",
-		Rule: "Cloud Storage: after a drawn valid setup, 1-12 perturbed requests per case on both stores from templates for every route (3 upload protocols, resumable continuation with hostile Content-Range / unknown upload ids, metadata and media GET in 3 URL forms, list, patch, delete object / bucket, new bucket, compose, rewrite, batch, unknown methods and paths) with hostile buckets, names, query values (ill-typed / overflowing numbers, bad tokens), bodies (null, {}, truncated JSON, truncated multipart, wrong boundary, bad gzip, malformed batch parts) and proxy headers; plus one third of the cases a well-formed batch compared part by part with the same requests run on their own on a twin emulator with identical history; oracle: no panic, status 100-599, JSON bodies parse, error bodies carry error.code = status, API-level errors are JSON, the call returns within 60s, canary objects byte- and metadata-identical afterwards and a fresh upload+download works; non-trivial = a perturbed request reached the emulator",
+		Rule: "Cloud Storage: after a drawn valid setup, 1-12 perturbed requests per case on both stores from templates for every route (3 upload protocols, resumable continuation with hostile Content-Range / unknown upload ids, metadata and media GET in 3 URL forms, list, patch, delete object / bucket, new bucket, compose, rewrite, batch, unknown methods and paths) with hostile buckets, names, query values (ill-typed / overflowing numbers, bad tokens), bodies (null, {}, truncated JSON, truncated multipart, wrong boundary, bad gzip, malformed batch parts) and proxy headers; plus one third of the cases a well-formed batch compared part by part with the same requests run on their own on a twin emulator with identical history; oracle: no panic, status 100-599, JSON bodies parse, error bodies carry error.code = status, API-level errors are JSON, the call returns (a request whose goroutine sits in a lock / channel wait in 5 samples after 60 s is a hang; a slow one is waited for), canary objects byte- and metadata-identical afterwards and a fresh upload+download works; non-trivial = a perturbed request reached the emulator",
 		Gen:  genC20GCS(), Run: runC20GCS}.Main(t)
 }
 
@@ -390,6 +390,6 @@ func runC20GCSMix(c C20GCSMix, ev *vt.Ev) *vt.Failure {
 
 func TestC20GCSMix(t *testing.T) {
 	vt.Prop[C20GCSMix]{ID: "C20", Test: "TestC20GCSMix",
-		Rule: "Cloud Storage, under the Go race detector: 4-8 goroutines x 5-30 requests on one bucket: uploads, deletes, listings with delimiter and small pages while objects appear and vanish, bucket deletion while uploading, compose while its sources are overwritten / deleted, several clients continuing ONE resumable upload_id, patches, copies, media reads; oracle: no race report, no panic or fatal error, every response well formed, everything returns within 180s, canary bucket intact; non-trivial = >=40 requests completed",
+		Rule: "Cloud Storage, under the Go race detector: 4-8 goroutines x 5-30 requests on one bucket: uploads, deletes, listings with delimiter and small pages while objects appear and vanish, bucket deletion while uploading, compose while its sources are overwritten / deleted, several clients continuing ONE resumable upload_id, patches, copies, media reads; oracle: no race report, no panic or fatal error, every response well formed, everything returns (same hang rule), canary bucket intact; non-trivial = >=40 requests completed",
 		Gen:  genC20GCSMix(), Run: runC20GCSMix}.Main(t)
 }
